@@ -323,6 +323,14 @@ def value_shape_cases():
                         out.append(pre + [T("id", "if"), T("id", name)] + args + [T("{", "{"), T("}", "}")])
                     else:
                         out.append(pre + [T("id", name)] + args + [T(";", ";")])
+                # the tag left dangling at the very end of the command, alone and after another tag group
+                others = [T("tag", t2) for g2 in spec["groups"] if g2 is not grp for t2 in sorted(g2)[:1] if g2[t2][0] is None]
+                for lead in ([], others[:1]):
+                    args = lead + [T("tag", tag)]
+                    if spec["kind"] == "test":
+                        out.append(pre + [T("id", "if"), T("id", name)] + args + [T("{", "{"), T("}", "}")])
+                    else:
+                        out.append(pre + [T("id", name)] + args + [T(";", ";")])
     # (c)
     bad = ['"R\udce9union"', '"\udcff"', '"a\udcc3"', '"\udc80\udc80"', '"ok\udce8 \udce9"']
     for b in bad:
